@@ -9,8 +9,8 @@ package db
 import (
 	"errors"
 	"fmt"
-	"strings"
 
+	"github.com/alicebob/sqlittle/internal/ascii"
 	"github.com/alicebob/sqlittle/sql"
 )
 
@@ -47,7 +47,7 @@ type IndexColumn struct {
 
 func newSchema(table string, master []sqliteMaster) (*Schema, error) {
 	var createSQL string
-	n := strings.ToLower(table)
+	n := ascii.Lower(table)
 	for _, m := range master {
 		if m.typ == "table" && m.name == n {
 			createSQL = m.sql
@@ -317,13 +317,13 @@ func sameIndexColumns(a, b []IndexColumn) bool {
 		if c == "" {
 			return DefaultCollate
 		}
-		return strings.ToLower(c)
+		return ascii.Lower(c)
 	}
 	if len(a) != len(b) {
 		return false
 	}
 	for i := range a {
-		if !strings.EqualFold(a[i].Column, b[i].Column) ||
+		if !ascii.EqualFold(a[i].Column, b[i].Column) ||
 			collate(a[i].Collate) != collate(b[i].Collate) {
 			return false
 		}
@@ -352,9 +352,9 @@ func (st *Schema) setPK(cols []IndexColumn) bool {
 
 // Returns the index of the named column, or -1.
 func (st *Schema) Column(name string) int {
-	u := strings.ToLower(name)
+	u := ascii.Lower(name)
 	for i, col := range st.Columns {
-		if strings.ToLower(col.Column) == u {
+		if ascii.Lower(col.Column) == u {
 			return i
 		}
 	}
@@ -371,9 +371,9 @@ func (st *Schema) column(name string) *TableColumn {
 
 // NamedIndex returns the index with the name (case insensitive)
 func (st *Schema) NamedIndex(name string) *SchemaIndex {
-	u := strings.ToUpper(name)
+	u := ascii.Upper(name)
 	for i, ind := range st.Indexes {
-		if strings.ToUpper(ind.Index) == u {
+		if ascii.Upper(ind.Index) == u {
 			return &st.Indexes[i]
 		}
 	}
@@ -382,9 +382,9 @@ func (st *Schema) NamedIndex(name string) *SchemaIndex {
 
 // Returns the index of the named column, or -1.
 func (si *SchemaIndex) Column(name string) int {
-	u := strings.ToUpper(name)
+	u := ascii.Upper(name)
 	for i, col := range si.Columns {
-		if strings.ToUpper(col.Column) == u {
+		if ascii.Upper(col.Column) == u {
 			return i
 		}
 	}
@@ -404,7 +404,7 @@ func (si *SchemaIndex) Column(name string) int {
 // all values will be null.
 // See https://sqlite.org/lang_createtable.html#rowid
 func isRowid(tableConstraint bool, typ string, dir sql.SortOrder) bool {
-	if strings.ToUpper(typ) != "INTEGER" {
+	if ascii.Upper(typ) != "INTEGER" {
 		return false
 	}
 	return tableConstraint || dir == sql.Asc
